@@ -1472,6 +1472,11 @@ void set_rand_domain(int n) { g_rand_domain = n < 1 ? 1 : n; }
 int rand_domain() { return g_rand_domain; }
 uint64_t steps() { return g.steps; }
 bool heap_reuse_mode() { return g_cfg.heap_reuse != 0; }
+void point() {
+  VThread* me = tl_self;
+  if (!g.in_child || !me || g.failing || g.unjoined_others == 0) return;
+  sched_point(me);
+}
 bool hb_mode() { return g_cfg.mode == 1; }
 long opt(const char* key, long dflt) {
   for (int i = 0; i < g_cfg.nopt; i++)
